@@ -7,8 +7,8 @@ spec = {"log": path, "ackfd": n, "ops": [...], "sink": "raw"|"buffered", "chunk"
                         "chunks": c | null, "offset": o | null}}
 ops: {"op":"msg","type":t,"fields":{..}} | {"op":"action","type":t,"fields":{..},"body":[..],"fail":bool,"end":{..}}
      field values: JSON values; {"$big": n, "c": ch} stands for a string of n characters.
-Ack pipe: b"R" once eliot is imported and the destination installed, then b"A" after each logging call
-returned (each call emits exactly one message).
+Ack pipe: b"R" once eliot is imported and the destination installed, b"W<len>;" when write() is entered
+for a message line, b"A" after each logging call returned (each call emits exactly one message), b"D" at the end.
 """
 import json
 import os
@@ -27,6 +27,7 @@ class KillFile(object):
 
     def __init__(self, fd, spec):
         self.fd = fd
+        self.ackfd = int(spec["ackfd"])
         self.kill = spec.get("kill")
         self.chunk = int(spec.get("chunk") or 1 << 16)
         self.n = -1        # index of the message being written (the probe write(b"") is not one)
@@ -45,6 +46,7 @@ class KillFile(object):
         if len(data) == 0:
             return 0
         self.n += 1
+        os.write(self.ackfd, b"W%d;" % len(data))      # the parent learns the length of the line being written
         if self._k("before-write"):
             die()
         if self.inner is not None:
@@ -98,6 +100,9 @@ def main():
     fd = os.open(spec["log"], os.O_WRONLY | os.O_CREAT | os.O_APPEND, 0o644)
     import eliot
     from eliot import start_action, log_message
+    if spec.get("whoami"):
+        with open(os.path.join(os.path.dirname(sys.argv[1]), "whoami"), "w") as wf:
+            wf.write(eliot.__file__)
     f = KillFile(fd, spec)
     eliot.to_file(f)
 
